@@ -364,7 +364,10 @@ UnsubRaceSpec == BothUp({<<"a">>}) /\ [][UnsubRaceNext]_vars
 ANames == {<<"a">>}
 RefuseKinds == {"level", "name", "idlong", "idbad", "iddel", "idhigh", "idctl1f", "idempty0", "reserved", "willflags", "notconnect-ping",
                 "notconnect-sub", "notconnect-pub", "truncated", "truncated2", "garbage", "badflags",
-                "v3-truncated10", "v3-truncated11", "remlen5"}
+                "v3-truncated10", "v3-truncated11", "remlen5",
+                \* a connection stuck in the middle of its CONNECT (no effect, and no effect on others: the replayer lets another
+                \* client connect and disconnect meanwhile - CONNACK 0 - before the stalled connection goes away)
+                "stall-halfconnect"}
 AdmitInit == Witness(ANames, c2, k2, {<<"#">>}, 1)
 AdmitNext == steps < MaxSteps /\
   \/ \E kind \in RefuseKinds, follow \in {"", "a"} : Refuse(c1, kind, follow)
